@@ -1078,6 +1078,9 @@ class Interp(object):
             return z3.Or(*parts) if parts else False
         if k == 'keymap':
             return c.dom(x.c) if x.kind == 'pathkey' else False
+        if k == 'intdict':
+            from .accmodel import intdict_contains
+            return intdict_contains(self, c, x)
         if k == 'dict' and getattr(c, 'symset', None) is not None:
             if x.kind != 'node':
                 return False
@@ -1218,6 +1221,9 @@ class Interp(object):
         if k in ('acc', 'accpath'):
             from .accmodel import acc_getitem
             return acc_getitem(self, c, key)
+        if k == 'intdict':
+            from .accmodel import intdict_getitem
+            return intdict_getitem(self, c, key)
         if k == 'opaque' and c.tag == 'trpkey':
             ci = concrete_int(key.z) if key.kind == 'int' else None
             w = getattr(self.ctx, 'trpworld', None)
@@ -1284,6 +1290,9 @@ class Interp(object):
         if k == 'pairmap':
             from .accmodel import pairmap_setitem
             return pairmap_setitem(self, c, key, v)
+        if k == 'intdict':
+            from .accmodel import intdict_setitem
+            return intdict_setitem(self, c, key, v)
         if g is not None and k in ('adj', 'row', 'edgedata', 'timeline', 'interval', 'tte', 'tteinner', 'snap'):
             g.valid = False           # a direct write to the edge representation: Inv(g) is no longer known
         if k in ('adj', 'row') and c.view:
